@@ -7,7 +7,14 @@ fields / box struct literals) intersects the set of box fields the accessor's re
 the accessor's call closure).  Together with C04 (each such field is written and read at the same wire position) and
 C05/C16 (packed fields are routed bit-exactly) this is a necessary condition of the round trip; breaking it makes the
 accessor report something that does not depend on the configured value.
-NOT decided: value equality (e.g. lossy packing of AAC object types >= 32 is C05's routing check), duration arithmetic.
+  R-TABLE   the conversions the configured values pass through on their way to the wire and back - track kind, media kind,
+            AAC object type / sampling-frequency index / channel configuration, AVC profile, and the packed ISO-639 language
+            code - equal their defining tables and are mutually inverse (C16 R3 / R5 instances).
+  R-DUR     the reported durations are the summed sample durations in the reported unit: the muxer's duration bookkeeping
+            (update_durations of track and movie, the values handed between them) is dimensionally consistent - media ticks
+            into mdhd, media ticks x movie timescale / media timescale into tkhd and the movie duration (rules/units.py) -
+            and no duration is stored in a wire field narrower than its value (C13 R-CAST instances of mdhd/tkhd/mvhd).
+NOT decided: value equality (e.g. lossy packing of AAC object types >= 32 is C05's routing check), the one-tick rounding bound.
 """
 import c09
 from callgraph import callgraph
@@ -291,8 +298,17 @@ def run(fx, chk, tier):
         for variant, fld in KIND:
             chk.require(stores.get(fld) == variant, "R-KIND", "mux|" + variant, "%s => stsd.%s" % (variant, fld), "%s populates stsd.%s in arm %s" % (variant, fld, stores.get(fld)), site_of(new))
             chk.require("StsdBox." + fld in rd_mt and "StsdBox." + fld in rd_bt, "R-KIND", "demux|" + fld, "media_type()/box_type() test stsd.%s" % fld, "media_type()/box_type() do not test stsd.%s" % fld, site_of(mt))
+    # ---------------- R-TABLE / R-DUR
+    from packs_common import compose
+    import units
+    chk.rule("R-TABLE", "enum-code and packed-language conversions of configured values equal their tables and are mutually inverse (C16 R3/R5 instances)")
+    compose(fx, chk, tier, "R-TABLE", "C16", ["R3", "R5"], floor=120, what="conversion-table obligations")
+    chk.rule("R-DUR", "duration bookkeeping is dimensionally consistent (media vs movie ticks) and no duration is truncated on the wire (C13 R-CAST instances)")
+    units.run_rule(fx, chk, "R-DUR", units.MUXER_ENTRIES, regions=(None,), widths=False, floor=20, what="in the duration bookkeeping",
+                   only=lambda f: "update_durations" in f or f.endswith("::write_sample") or f.endswith("Writer<W>::write_end"))
+    compose(fx, chk, tier, "R-DUR", "C13", ["R-CAST"], keyfilter=lambda o: any(x in o["key"] for x in ("MdhdBox", "TkhdBox", "MvhdBox")) or ".floor" in o["rule"], floor=9, what="duration narrowing obligations")
     return chk.finish(
         "other",
         "%d configuration/accessor rows: forward value-flow sinks on the mux side (MIR, interprocedural over the muxer closure) intersected with the accessor's field-read footprint. "
-        "A necessary condition of the round trip; value equality and duration arithmetic are NOT decided." % sum(len(r[2]) for r in ROWS),
+        "Conversion tables (C16 instances), the dimensional consistency of the duration bookkeeping and the width of the duration fields are checked as well. Necessary conditions of the round trip; value equality is NOT decided." % sum(len(r[2]) for r in ROWS),
     )
